@@ -115,9 +115,12 @@ func peerKey(srv string) string {
 	return "<" + srv + ">"
 }
 
-func (w *c07World) handshake(tag, srv string, cmd int) {
+func (w *c07World) handshake(tag, srv string, cmd int, authCmd ...int) {
 	cc := baseCfg(security.SecurityRequired, security.SecurityRequired, []security.AuthMethod{mCTB}, []security.CryptoMethod{security.CryptoAES}, false)
 	cc.SessionCache, cc.Command, cc.SecurityTag = w.cache, cmd, tag
+	if len(authCmd) > 0 {
+		cc.AuthCommand = authCmd[0] // a sub-command of the handshake; the command served is still cmd
+	}
 	sc := baseCfg(security.SecurityRequired, security.SecurityRequired, []security.AuthMethod{mCTB}, []security.CryptoMethod{security.CryptoAES}, true)
 	sc.SessionDuration, sc.SessionLease = 3600, 1800
 	valid := c07ValidFor(srv)
@@ -284,6 +287,8 @@ func c07Events() []string {
 			}
 		}
 	}
+	// a handshake for command 6 that carries the OTHER command (5) as its AuthCommand sub-command
+	ev = append(ev, "hsa:T1:A", "hsa::B")
 	// the client process mints a claim session of its own (tag T1 towards A, no tag towards B,
 	// command 5) and the server imports the claim id
 	ev = append(ev, "mint:T1:A", "mint::B")
@@ -303,6 +308,14 @@ func (w *c07World) apply(ev string) bool {
 			cmd = 6
 		}
 		w.handshake(p[1], srv, cmd)
+		return true
+	case strings.HasPrefix(ev, "hsa:"):
+		p := strings.Split(ev, ":")
+		srv := c07Srvs[0]
+		if p[2] == "B" {
+			srv = c07Srvs[1]
+		}
+		w.handshake(p[1], srv, 6, 5)
 		return true
 	case strings.HasPrefix(ev, "mint:"):
 		p := strings.Split(ev, ":")
